@@ -6,7 +6,8 @@ import re
 from lib import *
 from batches import core
 
-TRUSTED = list(core.TRUSTED) + ['parse_encoded_pointer']
+TRUSTED = list(core.TRUSTED) + ['parse_encoded_pointer', 'mul', 'ArrayVec', 'is_empty', 'get', 'set', 'clear',
+                                'new_in', 'reset', 'row', 'row_mut', 'save_initial_rules', 'get_initial_rule', 'push_row', 'pop_row']
 VERUS_ARGS = ['--rlimit', '40']
 RETRY_RLIMIT = 120
 
@@ -110,7 +111,6 @@ def parse_clauses():
     # DW_CFA_set_loc: a target address (address_size bytes) unless an .eh_frame pointer encoding applies (then parse_encoded_pointer, owned by C05)
     out.append(f'[C06:decode-set_loc] res matches Ok(op) ==> ({{ {HEAD} b == 0x01 ==> (op matches CallFrameInstruction::SetLoc {{ address }} && '
                f'(address_encoding is None ==> address == b0.u(1, parameters.address_size as int) && valid_address_size(parameters.address_size) && adv(b0, {FIN}, 1 + parameters.address_size as nat))) }})')
-    out.append(f'[C06:accept-set_loc] ({{ {HEAD} b == 0x01 && address_encoding is None && valid_address_size(parameters.address_size) && b0.len >= 1 + parameters.address_size ==> res is Ok }})')
     # vendor gate
     out.append(f'[C06:decode-AARCH64_negate_ra_state] ({{ {HEAD} b0.len >= 1 && b == 0x2d ==> '
                f'(if vendor == Vendor::AArch64 {{ res == Ok::<CallFrameInstruction<T>, Error>(CallFrameInstruction::NegateRaState) && adv(b0, {FIN}, 1) }} '
@@ -171,18 +171,272 @@ use crate::vspec::*;''')
     pep.splice('parse_encoded_pointer', ret='res', ensures=['within(old(input).rv(), final(input).rv())'])
     sk.add('read::cfi', pep)
 
-    imp = cfi.item(r'^impl<T: ReaderOffset> CallFrameInstruction<T> \{', label='CallFrameInstruction').clean()
+    imp = cfi.item(r'^impl<T: ReaderOffset> CallFrameInstruction<T> \{', label='CallFrameInstruction')
+    # R-GUARD: Verus 0.2026.09.13 loses the final value of the `&mut` parameter across a match arm that carries an `if`
+    # guard (found by bisection: every clause about final(input) fails at the end of the body as soon as the guarded arm is
+    # present, and passes with the test moved inside the arm).  The guarded arm is rewritten to the equivalent unguarded arm;
+    # its else-branch replicates the fall-through arm `otherwise => Err(UnknownCallFrameInstruction(otherwise))`, which is
+    # anchored verbatim so that any edit of either arm is a lost anchor (exit 2), not a silent mismatch.
+    imp.custom('R-GUARD', """            constants::DW_CFA_AARCH64_negate_ra_state if vendor == Vendor::AArch64 => {
+                Ok(CallFrameInstruction::NegateRaState)
+            }
+
+            otherwise => Err(Error::UnknownCallFrameInstruction(otherwise)),""",
+               """            constants::DW_CFA_AARCH64_negate_ra_state => {
+                if vendor == Vendor::AArch64 { Ok(CallFrameInstruction::NegateRaState) } else { Err(Error::UnknownCallFrameInstruction(instruction)) }
+            }
+
+            otherwise => Err(Error::UnknownCallFrameInstruction(otherwise)),""")
+    imp.clean()
     imp.splice('parse', ret='res',
                requires=['[C10:offset-from-pre] old(input).rv().root == parameters.section.rv().root && parameters.section.rv().start <= old(input).rv().start'],
                ensures=parse_clauses(),
                before=[('let high_bits = instruction & CFI_INSTRUCTION_HIGH_BITS_MASK;', MASK_BV)],
                owners=OWN, canary=True)
     sk.add('read::cfi', imp)
+
+    populate_unwind(ctx, sk, cfi)
     return sk
 
 
+# ----------------------------------------------------------------------------------------------------------------------
+# 2./3. unwind table evaluation and the unwind context
+# ----------------------------------------------------------------------------------------------------------------------
+MODEL = r"""
+// ---- R-WRAP: model of core::num::Wrapping<u64|i64> (multiplication only; trusted)
+#[derive(Clone, Copy, PartialEq, Eq, Debug)]
+pub struct Wrapping<T>(pub T);
+impl vstd::std_specs::ops::MulSpecImpl<Wrapping<u64>> for Wrapping<u64> {
+    open spec fn obeys_mul_spec() -> bool { true }
+    open spec fn mul_req(self, rhs: Wrapping<u64>) -> bool { true }
+    open spec fn mul_spec(self, rhs: Wrapping<u64>) -> Wrapping<u64> { Wrapping(wrap_u64(self.0 as int * rhs.0 as int)) }
+}
+impl core::ops::Mul for Wrapping<u64> { type Output = Wrapping<u64>;
+    #[verifier::external_body] fn mul(self, rhs: Wrapping<u64>) -> Wrapping<u64> { Wrapping(self.0.wrapping_mul(rhs.0)) } }
+impl vstd::std_specs::ops::MulSpecImpl<Wrapping<i64>> for Wrapping<i64> {
+    open spec fn obeys_mul_spec() -> bool { true }
+    open spec fn mul_req(self, rhs: Wrapping<i64>) -> bool { true }
+    open spec fn mul_spec(self, rhs: Wrapping<i64>) -> Wrapping<i64> { Wrapping(wrap_i64(self.0 as int * rhs.0 as int)) }
+}
+impl core::ops::Mul for Wrapping<i64> { type Output = Wrapping<i64>;
+    #[verifier::external_body] fn mul(self, rhs: Wrapping<i64>) -> Wrapping<i64> { Wrapping(self.0.wrapping_mul(rhs.0)) } }
+
+// ---- model of read/util.rs: ArrayLike (capacity) and ArrayVec (a sequence bounded by the capacity). Trusted here;
+//      the real unsafe code is checked against the same statements by Kani K-AVEC.
+pub trait ArrayLike { type Item; spec fn cap() -> nat; }
+impl<T, const N: usize> ArrayLike for [T; N] { type Item = T; open spec fn cap() -> nat { N as nat } }
+impl<T, const N: usize> ArrayLike for Box<[T; N]> { type Item = T; open spec fn cap() -> nat { N as nat } }
+#[verifier::external_body]
+#[verifier::reject_recursive_types(A)]
+pub struct ArrayVec<A: ArrayLike> { x: core::marker::PhantomData<A> }
+impl<A: ArrayLike> ArrayVec<A> {
+    pub uninterp spec fn view(&self) -> Seq<A::Item>;
+    #[verifier::external_body] pub fn is_empty(&self) -> (r: bool) ensures r == (self.view().len() == 0) { unimplemented!() }
+}
+"""
+
+ARCH = """
+pub struct AArch64;
+impl AArch64 { pub const RA_SIGN_STATE: Register = Register(%s); }
+"""
+
+CTX_GHOST = """
+    /// capacity of the row stack / of the rule storage of one row
+    pub open spec fn max_rows() -> nat { <S::Stack as ArrayLike>::cap() }
+    pub open spec fn max_rules() -> nat { <S::Rules as ArrayLike>::cap() }
+    /// representation: when the CIE left more than one initial rule, `stack[0]` holds them (hidden from the abstract stack)
+    pub closed spec fn hidden(&self) -> bool { self.is_initialized && self.initial_rule is None }
+    pub closed spec fn abs(&self) -> ACtx<T> {
+        let rows = self.stack.view().map_values(|r: UnwindTableRow<T, S>| r.abs());
+        ACtx {
+            stack: if self.hidden() { rows.skip(1) } else { rows },
+            initial: if !self.is_initialized { None } else { Some(match self.initial_rule {
+                None => self.stack.view()[0].registers.view(),
+                Some(None) => Map::empty(),
+                Some(Some(p)) => Map::empty().insert(p.0, p.1),
+            }) },
+            reserved: if self.hidden() { 1 } else { 0 },
+        }
+    }
+    pub open spec fn wf(&self) -> bool { self.abs().wf() && self.abs().stack.len() + self.abs().reserved <= Self::max_rows() }
+    pub open spec fn params(caf: u64, daf: i64, address_size: u8) -> CfaParams {
+        CfaParams { caf: caf, daf: daf, address_size: address_size, max_rows: Self::max_rows(), max_rules: Self::max_rules() }
+    }
+"""
+
+A0 = 'old(self).abs()'
+A1 = 'final(self).abs()'
+
+VARIANTS = ['SetLoc', 'AdvanceLoc', 'DefCfa', 'DefCfaSf', 'DefCfaRegister', 'DefCfaOffset', 'DefCfaOffsetSf', 'DefCfaExpression',
+            'Undefined', 'SameValue', 'Offset', 'OffsetExtendedSf', 'ValOffset', 'ValOffsetSf', 'Register', 'Expression',
+            'ValExpression', 'Restore', 'RememberState', 'RestoreState', 'ArgsSize', 'NegateRaState', 'Nop']
+
+
+def camel_to_cfa(v):
+    return re.sub(r'(?<!^)([A-Z])', r'_\1', v).lower()
+
+
+def evaluate_clauses():
+    st = ('let st = cfa_step(old(self).ctx.abs(), instruction, UnwindContext::<R::Offset, S>::params(old(self).code_alignment_factor.0, '
+          'old(self).data_alignment_factor.0, old(self).address_size), old(self).next_start_address); ')
+    out = []
+    for v in VARIANTS:
+        out.append(f'[C06:step-{camel_to_cfa(v)}] instruction is {v} ==> ({{ {st} res_is(res, st.res) && final(self).ctx.abs() == st.ctx '
+                   f'&& final(self).next_start_address == st.next_start }})')
+    out.append('[C06:step-error-leaves-context] res is Err ==> final(self).ctx.abs() == old(self).ctx.abs() && final(self).next_start_address == old(self).next_start_address')
+    out.append('[C06:step-row-done] res == Ok::<bool, Error>(true) ==> final(self).ctx.abs().top().end == final(self).next_start_address '
+               '&& final(self).next_start_address >= old(self).ctx.abs().top().start && final(self).ctx.abs().top().start == old(self).ctx.abs().top().start')
+    out.append('[C06:step-row-open] res == Ok::<bool, Error>(false) ==> final(self).next_start_address == old(self).next_start_address '
+               '&& final(self).ctx.abs().top().start == old(self).ctx.abs().top().start')
+    out.append('final(self).ctx.wf()')
+    out.append(TABLE_FRAME)
+    return out
+
+
+TABLE_FRAME = ('final(self).code_alignment_factor == old(self).code_alignment_factor && final(self).data_alignment_factor == old(self).data_alignment_factor '
+               '&& final(self).address_size == old(self).address_size && final(self).last_end_address == old(self).last_end_address '
+               '&& final(self).ctx.abs().initial == old(self).ctx.abs().initial && final(self).ctx.abs().reserved == old(self).ctx.abs().reserved')
+
+
+def populate_unwind(ctx, sk, cfi):
+    rmod = Source('read/mod.rs', ctx)
+    arch = Source('arch.rs', ctx)
+    m = re.search(r'registers!\(AArch64, \{.*?\bRA_SIGN_STATE = \((\d+),', arch.text, re.S)
+    if not m:
+        raise Lost('arch.rs: AArch64::RA_SIGN_STATE')
+    sk.module('arch', 'use crate::common::Register;')
+    sk.add('arch', ARCH % m.group(1), label='AArch64')
+    sk.add('read', rmod.item(r'^pub struct StoreOnHeap;').clean())
+    # derived PartialEq of the field-less enum Vendor / the tuple struct Register(u16) is structural equality
+    sk.add('common', 'unsafe impl Structural for Vendor {}\nunsafe impl Structural for Register {}', label='Structural')
+    sk.mods['read::cfi']['uses'] += '\nuse crate::read::StoreOnHeap;\nuse vstd::std_specs::ops::*;'
+    sk.add('read::cfi', MODEL, label='model')
+
+    sk.add('read::cfi', cfi.item(r'^pub enum CfaRule<').clean(rejrec=['T']))
+    sk.add('read::cfi', cfi.item(r'^pub enum RegisterRule<').clean(rejrec=['T']))
+    sk.add('read::cfi', core.rd('specs/cfi_unwind.rs'), label='cfa_step')
+    sk.add('read::cfi', cfi.item(r'^pub trait UnwindContextStorage<').clean())
+    sk.add('read::cfi', cfi.item(r'^const MAX_RULES').clean())
+    sk.add('read::cfi', cfi.item(r'^const MAX_UNWIND_STACK_DEPTH').clean())
+    sk.add('read::cfi', cfi.item(r'^impl<T: ReaderOffset> UnwindContextStorage<T> for StoreOnHeap').clean())
+
+    # ---- RegisterRuleMap: real struct over the model ArrayVec; its methods use iterator adapters / `for .. in &mut *slice`
+    #      (outside Verus) -> contracts assumed (finite map with capacity), discharged by Kani K-RRMAP
+    sk.add('read::cfi', cfi.item(r'^struct RegisterRuleMap<', with_attrs=False).clean(rejrec=['T', 'S']))
+    rrm = cfi.item(r'^impl<T, S> RegisterRuleMap<T, S>', label='RegisterRuleMap').keep_only(['get', 'set', 'clear'])
+    rrm.extbody(['get', 'set', 'clear']).clean()
+    rrm.insert_members('    /// the finite map register -> rule held by this row (first pair with that register)\n'
+                       '    pub uninterp spec fn view(&self) -> Map<Register, RegisterRule<T>>;\n'
+                       '    pub open spec fn cap() -> nat { <S::Rules as ArrayLike>::cap() }')
+    rrm.splice('get', ret='res', ensures=['[C06:rules-get] res == (if self.view().contains_key(register) { Some(self.view()[register]) } else { None::<RegisterRule<T>> })'])
+    rrm.splice('set', ret='res', ensures=[
+        '[C06:rules-set] res is Ok ==> final(self).view() == old(self).view().insert(register, rule)',
+        '[C06:rules-capacity] res is Err <==> !old(self).view().contains_key(register) && rules_len(old(self).view()) >= Self::cap()',
+        '[C06:rules-capacity] res matches Err(e) ==> e == Error::TooManyRegisterRules && final(self).view() == old(self).view()'])
+    rrm.splice('clear', ret='res', ensures=['[C06:rules-clear] res is Ok && final(self).view() == old(self).view().remove(register)'])
+    rrm.own(OWN)
+    sk.add('read::cfi', rrm)
+
+    # ---- UnwindTableRow
+    sk.add('read::cfi', cfi.item(r'^pub struct UnwindTableRow<', with_attrs=False).clean(rejrec=['T', 'S']))
+    row = cfi.item(r'^impl<T, S> UnwindTableRow<T, S>', label='UnwindTableRow')
+    row.keep_only(['start_address', 'end_address', 'contains', 'saved_args_size', 'cfa', 'register']).clean()
+    row.insert_members('    pub closed spec fn abs(&self) -> ARow<T> { ARow { start: self.start_address, end: self.end_address, cfa: self.cfa, '
+                       'rules: self.registers.view(), args_size: self.saved_args_size } }')
+    row.splice('start_address', ret='res', ensures=['[C06:row-observe] res == self.abs().start'])
+    row.splice('end_address', ret='res', ensures=['[C06:row-observe] res == self.abs().end'])
+    row.splice('contains', ret='res', ensures=['[C06:row-observe] res == (self.abs().start <= address < self.abs().end)'])
+    row.splice('saved_args_size', ret='res', ensures=['[C06:row-observe] res == self.abs().args_size'])
+    row.splice('cfa', ret='res', ensures=['[C06:row-observe] *res == self.abs().cfa'])
+    row.splice('register', ret='res', ensures=['[C06:row-observe] res == (if self.abs().rules.contains_key(register) { Some(self.abs().rules[register]) } else { None::<RegisterRule<T>> })'])
+    row.own(OWN)
+    sk.add('read::cfi', row)
+
+    # ---- UnwindContext
+    sk.add('read::cfi', cfi.item(r'^pub struct UnwindContext<', with_attrs=False).clean(rejrec=['T', 'S']))
+    uc = cfi.item(r'^impl<T, S> UnwindContext<T, S>', label='UnwindContext')
+    uc.drop(['initialize'])
+    ASSUMED_CTX = ['new_in', 'reset', 'row', 'row_mut', 'save_initial_rules', 'get_initial_rule', 'push_row', 'pop_row']
+    uc.extbody(ASSUMED_CTX)
+    uc.clean()
+    uc.insert_members(CTX_GHOST)
+    WF0 = 'old(self).wf()'
+    SAME = f'{A1}.initial == {A0}.initial && {A1}.reserved == {A0}.reserved'
+    uc.splice('new_in', ret='res', requires=['[C06:storage-nonempty] Self::max_rows() >= 1'],
+              ensures=['[C20:new-fresh] res.abs() == ACtx::<T>::fresh()', 'res.wf()'])
+    uc.splice('reset', requires=['[C06:storage-nonempty] Self::max_rows() >= 1'],
+              ensures=[f'[C20:reset-fresh] {A1} == ACtx::<T>::fresh()', 'final(self).wf()'])
+    uc.splice('row', ret='res', requires=['self.wf()'], ensures=['[C06:ctx-row] res.abs() == self.abs().top()'])
+    uc.splice('row_mut', ret='res', requires=[WF0], ensures=[
+        f'[C06:ctx-row] res.abs() == {A0}.top()',
+        f'[C06:ctx-row] {A1} == {A0}.with_top(final(res).abs())'])
+    uc.splice('save_initial_rules', ret='res', requires=[WF0, f'[C06:initial-once] {A0}.initial is None'], ensures=[
+        f'[C06:initial-capture] res is Ok ==> {A1}.initial == Some({A0}.top().rules) && {A1}.stack == {A0}.stack '
+        f'&& {A1}.reserved == (if rules_len({A0}.top().rules) <= 1 {{ 0nat }} else {{ 1nat }})',
+        f'[C06:initial-capture-limit] res is Err <==> rules_len({A0}.top().rules) > 1 && {A0}.stack.len() + {A0}.reserved >= Self::max_rows()',
+        f'[C06:initial-capture-limit] res matches Err(e) ==> e == Error::StackFull && {A1} == {A0}',
+        'final(self).wf()'])
+    uc.splice('start_address', ret='res', requires=['self.wf()'], ensures=['res == self.abs().top().start'])
+    uc.splice('set_start_address', requires=[WF0], ensures=[
+        f'[C06:ctx-row] {A1} == {A0}.with_top(ARow {{ start: start_address, ..{A0}.top() }})', 'final(self).wf()'])
+    uc.splice('set_register_rule', ret='res', requires=[WF0], ensures=[
+        f'[C06:ctx-set-rule] res is Ok ==> {A1} == {A0}.with_top(ARow {{ rules: {A0}.top().rules.insert(register, rule), ..{A0}.top() }})',
+        f'[C06:ctx-set-rule] res is Err <==> !{A0}.top().rules.contains_key(register) && rules_len({A0}.top().rules) >= Self::max_rules()',
+        f'[C06:ctx-set-rule] res matches Err(e) ==> e == Error::TooManyRegisterRules && {A1} == {A0}',
+        'final(self).wf()'])
+    uc.splice('clear_register_rule', ret='res', requires=[WF0], ensures=[
+        f'[C06:ctx-clear-rule] res is Ok && {A1} == {A0}.with_top(ARow {{ rules: {A0}.top().rules.remove(register), ..{A0}.top() }})',
+        'final(self).wf()'])
+    uc.splice('get_initial_rule', ret='res', ensures=[
+        '[C06:initial-rule] res == (match self.abs().initial { None => None::<Option<RegisterRule<T>>>, '
+        'Some(m) => Some(if m.contains_key(register) { Some(m[register]) } else { None::<RegisterRule<T>> }) })'])
+    uc.splice('set_cfa', requires=[WF0], ensures=[
+        f'[C06:ctx-row] {A1} == {A0}.with_top(ARow {{ cfa: cfa, ..{A0}.top() }})', 'final(self).wf()'])
+    uc.splice('cfa_mut', ret='res', requires=[WF0], ensures=[
+        f'*res == {A0}.top().cfa', f'{A1} == {A0}.with_top(ARow {{ cfa: *final(res), ..{A0}.top() }})'])
+    uc.splice('push_row', ret='res', requires=[WF0], ensures=[
+        f'[C06:ctx-push] res is Ok ==> {A1} == (ACtx {{ stack: {A0}.stack.push({A0}.top()), ..{A0} }})',
+        f'[C06:ctx-push-limit] res is Err <==> {A0}.stack.len() + {A0}.reserved >= Self::max_rows()',
+        f'[C06:ctx-push-limit] res matches Err(e) ==> e == Error::StackFull && {A1} == {A0}',
+        'final(self).wf()'])
+    uc.splice('pop_row', ret='res', requires=[WF0], ensures=[
+        f'[C06:ctx-pop] res is Ok ==> {A1} == (ACtx {{ stack: {A0}.stack.drop_last(), ..{A0} }})',
+        f'[C06:ctx-pop-limit] res is Err <==> {A0}.stack.len() <= 1',
+        f'[C06:ctx-pop-limit] res matches Err(e) ==> e == Error::PopWithEmptyStack && {A1} == {A0}',
+        'final(self).wf()'])
+    uc.own(OWN + ['C20'])
+    sk.add('read::cfi', uc)
+
+    # ---- CallFrameInstructionIter
+    sk.add('read::cfi', cfi.item(r'^pub struct CallFrameInstructionIter<').clean(rejrec=['R']))
+    it = cfi.item(r"^impl<'a, R: Reader> CallFrameInstructionIter<'a, R> \{", label='CallFrameInstructionIter').clean()
+    it.insert_members('    pub closed spec fn inp(&self) -> RView { self.input.rv() }\n'
+                      '    /// the instruction bytes lie inside the section the expression offsets are counted from\n'
+                      '    pub closed spec fn wf(&self) -> bool { self.input.rv().root == self.parameters.section.rv().root && self.parameters.section.rv().start <= self.input.rv().start }')
+    it.splice('next', ret='res', requires=['old(self).wf()'], ensures=[
+        '[C01:iter-done] old(self).inp().len == 0 ==> res == Ok::<Option<CallFrameInstruction<R::Offset>>, Error>(None) && final(self).inp() == old(self).inp()',
+        '[C01:iter-error-empties] res is Err ==> final(self).inp().len == 0',
+        '[C01:iter-progress] res matches Ok(Some(i)) ==> final(self).inp().len < old(self).inp().len',
+        '[C01:iter-done] res matches Ok(None) ==> old(self).inp().len == 0',
+        '[C01:frame] within(old(self).inp(), final(self).inp())', 'final(self).wf()'], owners=OWN, canary=True)
+    sk.add('read::cfi', it)
+
+    # ---- UnwindTable
+    sk.add('read::cfi', cfi.item(r"^pub struct UnwindTable<'a, 'ctx, R, S = StoreOnHeap>", with_attrs=False).clean(rejrec=['R', 'S']))
+    ut = cfi.item(r"^impl<'a, 'ctx, R, S> UnwindTable<'a, 'ctx, R, S>", label='UnwindTable')
+    ut.keep_only(['next_row', 'into_current_row', 'evaluate'])
+    ut.clean()
+    CAST = ('proof { assert(forall|x: u64| #![auto] (x as i64) as int == (if x >= 0x8000_0000_0000_0000u64 { x as int - 0x1_0000_0000_0000_0000int } else { x as int })) by (bit_vector); }')
+    ut.splice('evaluate', ret='res',
+              requires=['old(self).ctx.wf()', '[C01:address-size-validated] valid_address_size(old(self).address_size)'],
+              ensures=evaluate_clauses(),
+              before=[('match instruction {', CAST)],
+              owners=OWN, canary=True)
+    sk.add('read::cfi', ut)
+
+
 def build(ctx):
-    sk = Skeleton(ctx, core.rd('prelude/crate.rs'))
+    sk = Skeleton(ctx, core.rd('prelude/crate.rs') + '\npub use crate::read::cfi::CallFrameInstruction;\npub use crate::arch::AArch64;\n')
     core.populate(ctx, sk)
     populate(ctx, sk)
     return sk
